@@ -184,11 +184,25 @@ pub fn gen_plan(rng: &mut Rng, tier: Tier) -> Plan {
                 classes[e].decl_methods.push(m.clone());
                 Some(m)
             };
-            let phantom = |w: &mut Rng| Some((format!("nope{}", w.below(10)), "()V".to_string()));
+            // a method the enclosing class does not declare: an unknown name, or (half of the time, when possible) the name
+            // of a declared method with another descriptor - an overload that is not there
+            let phantom = |classes: &Vec<ClassPlan>, w: &mut Rng| -> Option<(String, String)> {
+                if let Some(e) = encl_idx {
+                    let have = methods_of(&classes[e]);
+                    if !have.is_empty() && w.chance(50) {
+                        let (n, d) = w.pick(&have).clone();
+                        let other = if d == "(J)V" { "(JJ)V" } else { "(J)V" };
+                        if !have.iter().any(|(hn, hd)| hn == &n && hd == other) {
+                            return Some((n, other.to_string()));
+                        }
+                    }
+                }
+                Some((format!("nope{}", w.below(10)), "()V".to_string()))
+            };
             let mut method = match kind {
                 Kind::Inner => {
                     if w.chance(12) {
-                        phantom(&mut w) // named, but the enclosing class does not declare it
+                        phantom(&classes, &mut w) // named, but the enclosing class does not declare it
                     } else {
                         None
                     }
@@ -197,7 +211,7 @@ pub fn gen_plan(rng: &mut Rng, tier: Tier) -> Plan {
                 Kind::Anonymous => match w.below(10) {
                     0..=4 => None,
                     5..=7 => existing(&mut classes, &mut w, &mut decl_counter, &class),
-                    _ => phantom(&mut w),
+                    _ => phantom(&classes, &mut w),
                 },
             };
             if violate {
@@ -214,7 +228,7 @@ pub fn gen_plan(rng: &mut Rng, tier: Tier) -> Plan {
                         method = existing(&mut classes, &mut w, &mut decl_counter, &class);
                     }
                     Kind::Local => {
-                        method = if w.chance(50) { None } else { phantom(&mut w) };
+                        method = if w.chance(50) { None } else { phantom(&classes, &mut w) };
                     }
                 }
             }
